@@ -25,6 +25,32 @@ CHECKS = {
         design_ref="DESIGN.md section 4 C27, F.5", engine="ModuleSort"),
 }
 
+SEM_NOTE = ("Trusted: the PSyIR->pv-ast exporter (fails closed: unsupported cases are counted, "
+            "never judged), the FortranSem.tla semantics itself (exact rationals, no rounding), the "
+            "bounded input domain stated in the evidence. Known genuine defects are listed in "
+            "findings.d/<id>.json and printed as KNOWN-FINDING; any other failing shape exits 1.")
+SEM_TECH = ("TLA+ operational semantics (FortranSem.tla) executed by TLC on (before, after) programs "
+            "exported from the real PSyIR: translation validation by model checking over all inputs "
+            "of a bounded domain")
+CHECKS["C05"] = dict(
+    level="model_checking",
+    text=("Every accepted application of the 8 generic loop transformations (fuse, swap, chunk, 2D "
+          "tiling, hoist, loop-bound hoist, induction-variable replacement, conditional-return "
+          "folding) on a generated family of ~900 routines (bounds/steps incl. zero-trip and "
+          "negative, subscript and statement grids) is exported before/after from the real PSyIR and "
+          "both programs are executed by TLC under FortranSem.tla on every input of the domain "
+          "(n in -1..4, m in 1..3, 2 array fills): clauses SameObservable and NoNewUndefined."),
+    note=SEM_NOTE, technique=SEM_TECH, design_ref="DESIGN.md section 4 C05, 2.1", engine="FortranSem")
+CHECKS["C06"] = dict(
+    level="model_checking",
+    text=("Every accepted application of ArrayAssignment2Loops, Reference2ArrayRange, (All)ArrayAccess2Loop, "
+          "ABS/SIGN/MIN/MAX/DOT_PRODUCT/MATMUL to code and SUM/PRODUCT/MINVAL/MAXVAL to loops (alone and "
+          "after Reference2ArrayRange) on ~200 generated statements (overlapping, strided, empty and "
+          "non-unit-lower-bound sections, broadcasts, masks) is executed before/after by TLC under "
+          "FortranSem.tla, whose array assignment evaluates the whole RHS before storing, on every input "
+          "of the domain."),
+    note=SEM_NOTE, technique=SEM_TECH, design_ref="DESIGN.md section 4 C06, 2.1", engine="FortranSem")
+
 NOT_YET = {}
 
 ALL = [f"C{i:02d}" for i in range(1, 30)]
